@@ -47,6 +47,16 @@ def _amt(rng):
     return [kind, a]
 
 
+def _nonzero_stored(rng, w, sym):
+    """an amount that is certainly NOT stored as zero, whatever the unit's quantum (0 ** -k
+    raises different exceptions in Decimal and Fraction: the dependency's business)"""
+    qu = w.unit_quantum(sym)
+    k = rng.choice([1, -3, 2])
+    if qu:
+        return ['frac', frs(F(qu) * k)]
+    return ['dec', f"{1000 * k}/1"]
+
+
 def _opd(rng, sym, kind):
     return ['q', _amt(rng), sym] if kind == 'q' else ['u', sym]
 
@@ -142,7 +152,7 @@ def gen_cases(rng, tier):
                 if o[2] < 0 and o[1][0] == 'q':
                     # 0 ** -k raises different exceptions in Decimal and Fraction (dependency):
                     # keep the stored amount away from zero whatever the quantum
-                    o[1][1] = ['dec', rng.choice(['1000/1', '-3000/1', '2000/1'])]
+                    o[1][1] = _nonzero_stored(rng, w, o[1][2])
             elif r < 0.3:
                 n = rng.choice(NUMS)
                 a = _opd(rng, rng.choice(us), rng.choice('qu'))
@@ -164,7 +174,7 @@ def gen_cases(rng, tier):
             if rng.random() < 0.25:
                 o = ['pow', _opd(rng, rng.choice(us), rng.choice('qu')), rng.choice([2, 3, -1])]
                 if o[2] < 0 and o[1][0] == 'q':
-                    o[1][1] = ['dec', '1000/1']
+                    o[1][1] = _nonzero_stored(rng, w, o[1][2])
             else:
                 o = [rng.choice(['mul', 'div']), _opd(rng, rng.choice(us), rng.choice('qu')),
                      _opd(rng, rng.choice(us), rng.choice('qu'))]
